@@ -93,6 +93,8 @@ pub struct TapeDe<'t> {
     pub literal_counts: &'t BTreeMap<(String, String), usize>,
     /// flags type name → alphabet of `bits` values derived from the schema's `flags` block
     pub flag_alphabets: &'t BTreeMap<String, Vec<u64>>,
+    /// count-width family only: an `Option<Vec<..>>` field whose length is forced is `Some` without a choice
+    pub force_some_for_forced_arrays: bool,
     /// alphabet for the next unsigned scalar (set when entering a flags struct)
     flag_alpha: Option<&'t Vec<u64>>,
     depth: usize,
@@ -149,6 +151,7 @@ impl<'t> TapeDe<'t> {
             alpha,
             literal_counts,
             flag_alphabets,
+            force_some_for_forced_arrays: false,
             flag_alpha: None,
             depth: 0,
             cur: None,
@@ -315,6 +318,17 @@ impl<'de, 'a, 't> de::Deserializer<'de> for &'a mut TapeDe<'t> {
         v.visit_byte_buf(b)
     }
     fn deserialize_option<V: Visitor<'de>>(self, v: V) -> Result<V::Value, DeErr> {
+        if self.force_some_for_forced_arrays {
+            if let Some((s, f)) = self.cur {
+                if self.literal_counts.contains_key(&(s.to_string(), f.to_string())) {
+                    // keep `cur` so that the sequence inside sees its forced length
+                    self.enter()?;
+                    let r = v.visit_some(&mut *self);
+                    self.depth -= 1;
+                    return r;
+                }
+            }
+        }
         self.cur = None;
         if self.choose(2) == 1 {
             self.enter()?;
